@@ -70,6 +70,9 @@ def run_case(case):
     f = Floor(spec, [], 'C04')
     try:
         stats, dg = f.run()
+    except core.Starved:
+        # simulate() returned without dispatching anything: judge it by what it recorded
+        stats, dg = f.stats, 'starved'
     except (HarnessError, core.RunTimeout, Violation):
         raise
     except core.StepCap as e:
